@@ -430,4 +430,15 @@ theorem content_count (paths zones : List ZPath) (hnd : paths.Nodup) (hcl : Pref
         intro hkp
         exact hp (List.IsPrefix.trans hkm.2.2 hkp)
 
+/-! ### the start state and the labels -/
+
+theorem init_inv (labels : List ZPath) : BInv (prePass labels) { paths := prePass labels } :=
+  ⟨by simp, List.nodup_nil, by simp, by simp⟩
+
+theorem labels_ok (labels : List ZPath) : ∀ l ∈ labels, l = [] ∨ l ∈ prePass labels := by
+  intro l hl
+  by_cases h : l = []
+  · exact Or.inl h
+  · exact Or.inr (label_mem_prePass labels l hl h)
+
 end OP
